@@ -45,7 +45,7 @@ func NewFactory(w *World) deployer.ConnectorFactory[*DepConfig] {
 	return &factory{w}
 }
 
-func (f *factory) Name() string                             { return DeployerName }
+func (f *factory) Name() string                            { return DeployerName }
 func (f *factory) DeploymentType() deployer.DeploymentType { return DeploymentType }
 func (f *factory) ConfigurationSchema() *schema.TypedScopeSchema[*DepConfig] {
 	return depSchema
